@@ -62,6 +62,8 @@ TRUSTED = [
     "transaction framing (a transaction left open is rolled back at close); splitting at ';\\n' (harness/online_impl.py:split_script); "
     "without transactional DDL a failure in the on_version_apply hook (after the version statement was emitted) is judged as a failure "
     "before the next migration, because for the script migration k is then complete and recorded",
+    "a body statement that reads the current heads (get_current_heads() mid-migration) is passed to the model as a DDL-kind statement whose "
+    "effect is the identity: in the validated modes that changes neither committed nor working nor the sqlite3 transaction state",
     "observation: sqlite_master table names, rows of the `data` table and alembic_version rows through a fresh connection "
     "(harness/online_impl.py:observe)",
 ]
@@ -84,7 +86,9 @@ RULE = (
     "begin_transaction() (get_current_heads / connection SELECT / context.execute) and run_migrations() without the outer "
     "begin_transaction() (only where that level is a nullcontext): round robin over the configs of every random in-process script, and "
     "on the command path (patched generic env.py) every variant x 4 settings (all 8 in thorough) x every failure position for a script "
-    "with and one without autocommit blocks; (10) several configure()/begin_transaction()/run_migrations() rounds on ONE connection "
+    "with and one without autocommit blocks; (11) migration bodies that read the current heads "
+    "(get_current_heads()) before / between / after their statements (35% of the random bodies per direction, fixed scripts, the "
+    "two-database / rounds scripts); (10) several configure()/begin_transaction()/run_migrations() rounds on ONE connection "
     "without a caller-owned transaction (hand-written multi-tenant env.py: one version table and disjoint objects per round, different "
     "settings per round), failing migration in the first or the second round, every round judged on its slice of the observation; "
     "(9) env.py calling run_migrations() twice inside ONE begin_transaction() block, through the real EnvironmentContext "
@@ -190,6 +194,12 @@ def gen_bodies(rng, hist, p_auto=0.2, max_stmts=4):
             dsegs = [{"auto": False, "stmts": down_stmts[:c]}, {"auto": rng.random() < p_auto, "stmts": down_stmts[c:]}]
         else:
             dsegs = [{"auto": rng.random() < p_auto / 2, "stmts": down_stmts}] if down_stmts else []
+        # the migration reads the current heads mid-way (before / between / after its statements, also inside autocommit blocks)
+        for which in (segs, dsegs):
+            if which and rng.random() < 0.35:
+                sg = which[rng.randrange(len(which))]
+                if not sg.get("batch"):
+                    sg["stmts"].insert(rng.randint(0, len(sg["stmts"])), list(READ))
         if batch:
             # the downgrade drops the column first (always a recreate on SQLite)
             dsegs = [oi.batch_seg(batch[0], batch[1], "drop", batch[2])] + dsegs
@@ -237,7 +247,14 @@ def all_configs(rng, thorough):
 
 # ------------------------------------------------------------------------------------------ one script
 
+READ = ["ddl", "read", 0]  # the body reads the current heads (MigrationContext.get_current_heads()) at this point
+
+
 def to_model_stmt(st):
+    if st[1] == "read":
+        # for the model a statement whose effect is the identity (`del` of an object that never exists); DDL kind because
+        # a SELECT does not open a DBAPI transaction in sqlite3's legacy mode, exactly like DDL (a DML would)
+        return {"k": "ddl", "a": ["del", oi.NOOP_OBJ]}
     return {"k": st[0], "a": [st[1], st[2]]}
 
 
@@ -448,8 +465,8 @@ FIXED_SCRIPTS = [
      "bodies": {"a": {"up": [{"auto": False, "stmts": [["ddl", "add", 0], ["dml", "add", 1], ["ddl", "add", 2]]}],
                       "down": [{"auto": False, "stmts": [["ddl", "del", 2], ["dml", "del", 1], ["ddl", "del", 0]]}]},
                 "b": {"up": [{"auto": False, "stmts": [["dml", "add", 3]]}, {"auto": True, "stmts": [["ddl", "add", 4]]},
-                             {"auto": False, "stmts": [["ddl", "add", 6]]}],
-                      "down": [{"auto": False, "stmts": [["ddl", "del", 6], ["ddl", "del", 4], ["dml", "del", 3]]}]},
+                             {"auto": False, "stmts": [["ddl", "read", 0], ["ddl", "add", 6]]}],
+                      "down": [{"auto": False, "stmts": [["ddl", "del", 6], ["ddl", "read", 0], ["ddl", "del", 4], ["dml", "del", 3]]}]},
                 "c": {"up": [{"auto": False, "stmts": [["ddl", "add", 8], ["dml", "add", 5]]}],
                       "down": [{"auto": False, "stmts": [["dml", "del", 5], ["ddl", "del", 8]]}]}}},
     # two roots merged: a, b; m <- (a, b); then d <- m.  upgrade from {a}
@@ -612,7 +629,7 @@ def multidb_cases(ctx, script, engine_mode, scratch):
 MULTIDB_SCRIPT = {
     "hist": [{"id": "a", "down": []}, {"id": "b", "down": ["a"]}], "shape": "linear", "cmd": "upgrade", "start": [], "target": "heads",
     "bodies": {"a": _b([["ddl", "add", 0], ["dml", "add", 1]], [["dml", "del", 1], ["ddl", "del", 0]]),
-               "b": _b([["dml", "add", 3], ["ddl", "add", 2]], [["ddl", "del", 2], ["dml", "del", 3]])},
+               "b": _b([["dml", "add", 3], ["ddl", "read", 0], ["ddl", "add", 2]], [["ddl", "del", 2], ["ddl", "read", 0], ["dml", "del", 3]])},
 }
 
 
@@ -635,7 +652,7 @@ SETTINGS = [(None, False), (None, True), (True, False), (True, True)]
 TWODB_SCRIPT = {
     "hist": [{"id": "a", "down": []}, {"id": "b", "down": ["a"]}], "shape": "linear", "cmd": "upgrade", "start": [], "target": "heads",
     "bodies": {"a": _b([["ddl", "add", 0], ["dml", "add", 1]], [["dml", "del", 1], ["ddl", "del", 0]]),
-               "b": _b([["dml", "add", 3], ["ddl", "add", 2]], [["ddl", "del", 2], ["dml", "del", 3]])},
+               "b": _b([["dml", "add", 3], ["ddl", "read", 0], ["ddl", "add", 2]], [["ddl", "del", 2], ["ddl", "read", 0], ["dml", "del", 3]])},
 }
 
 
